@@ -353,6 +353,7 @@ def run_bytes(case: dict, trace: bool = False) -> dict:
 
 class C03(Profile):
     id = 'C03'
+    BACKENDS = ('dict', 'dict', 'dict', 'maildir')
     level = 'exploration'
     quick_budget_s = 40.0
     thorough_budget_s = 400.0
@@ -377,7 +378,9 @@ class C03(Profile):
     components = C01.components
 
     def gen(self, rng, tier):
-        return gen_bytes_case(rng, tier)
+        from .common import backends, finish_cfg
+        return finish_cfg(gen_bytes_case(
+            rng, tier, backends=backends(self.BACKENDS)), rng)
 
     def run(self, case, trace=False):
         return run_bytes(case, trace)
